@@ -253,6 +253,7 @@ type world struct {
 	docs     map[string][]string // collection -> docIDs created
 	versions map[string][]string // collection -> version ids in order of discovery
 	views    int
+	rolled   map[string]bool // operations that were rolled back and not yet redone
 	owner    map[string]int // docID -> identity that created it (acp mode)
 
 	step       int
@@ -282,7 +283,7 @@ func edKey(seed byte) []byte {
 
 func run(c Case) (fail *hx.Failure, info *Info) {
 	info = &Info{Flags: map[string]bool{}, Count: map[string]int{}}
-	w := &world{c: c, mode: c.Mode, info: info, docs: map[string][]string{}, owner: map[string]int{}, versions: map[string][]string{}, sinceStart: map[string]bool{}}
+	w := &world{c: c, mode: c.Mode, info: info, docs: map[string][]string{}, owner: map[string]int{}, rolled: map[string]bool{}, versions: map[string][]string{}, sinceStart: map[string]bool{}}
 	if w.mode != "core" && w.mode != "acp" && w.mode != "p2p" {
 		hx.Harnessf("unknown mode %q", c.Mode)
 	}
@@ -439,6 +440,66 @@ func (w *world) both(kind, desc string, f func(n *hx.Node, isR bool) string) (st
 	return rt, nil
 }
 
+// inTx runs f against the database itself (mode 0) or against an explicit transaction that is then
+// committed (mode 1) or discarded (mode 2). ctx is what collection-level calls must use to run inside it.
+func inTx(n *hx.Node, mode int, f func(s client.Store, ctx context.Context) string) string {
+	if mode == 0 {
+		return f(n.DB, n.Ctx)
+	}
+	txn, err := n.DB.NewTxn(n.Ctx, false)
+	if err != nil {
+		return "new txn: " + errText(err)
+	}
+	defer txn.Discard(n.Ctx)
+	out := f(txn, db.InitContext(n.Ctx, txn))
+	if mode == 1 && isErr(out) {
+		// A client whose operation failed inside an explicit transaction abandons the transaction. (Committing it
+		// keeps whatever the failed operation wrote before it failed, e.g. some fields of a document whose
+		// one-to-one link was then refused, and which fields depends on Go's map order: not this property's matter.)
+		txn.Discard(n.Ctx)
+		return out + " / discarded after the error"
+	}
+	if mode == 1 {
+		if err := txn.Commit(n.Ctx); err != nil {
+			return out + " / commit " + errText(err)
+		}
+		return out + " / committed"
+	}
+	txn.Discard(n.Ctx)
+	return out + " / discarded"
+}
+
+// took reports whether an operation with result text rt took effect.
+func took(o Op, rt string) bool {
+	return !isErr(rt) && o.Tx != 2 && !strings.Contains(rt, " / commit error")
+}
+
+func (w *world) noteTx(o Op, rt string) {
+	switch {
+	case o.Tx == 1:
+		w.info.flag("tx-committed:" + o.K)
+	case o.Tx == 2 && !isErr(rt):
+		w.info.flag("tx-discarded:" + o.K)
+		w.rolled[w.redoKey(o)] = true
+		w.changed("rollback")
+	}
+	if o.Fail != 0 && isErr(rt) {
+		w.info.flag("addschema-fails-on-later-type")
+		w.rolled[w.redoKey(o)] = true
+		w.changed("rollback")
+	}
+	if took(o, rt) && w.rolled[w.redoKey(o)] {
+		w.info.flag("redo-after-rollback:" + o.K)
+		w.changed("redo-after-rollback")
+		delete(w.rolled, w.redoKey(o))
+	}
+}
+
+// redoKey identifies "the same operation" for the redo-after-rollback label.
+func (w *world) redoKey(o Op) string {
+	return fmt.Sprintf("%s/%d/%d/%d/%d/%d/%d/%v/%v", o.K, o.C, o.N, o.F, o.F2, o.X, o.V, o.B, o.B2)
+}
+
 func trimTo(s string, n int) string {
 	if len(s) > n {
 		return s[:n] + "…"
@@ -547,6 +608,13 @@ func (w *world) apply(o Op) *hx.Failure {
 // ---------------------------------------------------------------- operations
 
 func (w *world) opRestart() *hx.Failure {
+	if w.c.Avoid && rec.IsKnown(sigEmptyDBTypes) && len(w.cols) == 0 {
+		// known finding: the GraphQL types of a database without any collection differ between first boot and restart
+		return nil
+	}
+	if len(w.cols) == 0 {
+		w.info.flag("restart-of-empty-database")
+	}
 	tracef("step %d restart", w.step)
 	var selfBefore string
 	if w.p2p != nil {
@@ -585,17 +653,29 @@ func (w *world) opRestart() *hx.Failure {
 
 func (w *world) opAddSchema(o Op) *hx.Failure {
 	sdl, names := w.sdlOf(o)
-	rt, f := w.both(o.K, strings.ReplaceAll(sdl, "\n", " "), func(n *hx.Node, _ bool) string {
-		cols, err := n.DB.AddSchema(n.Ctx, sdl)
-		if err != nil {
-			return errText(err)
-		}
-		return hx.Canon(hx.Normalize(cols))
+	switch o.Fail {
+	case 1:
+		sdl += "type Zq @index(includes: [{field: \"nope\"}]) {\n\ts: String\n}\n"
+	case 2:
+		sdl += "type Zq {\n\ts: String @index(name: \"dup\")\n\ti: Int @index(name: \"dup\")\n}\n"
+	}
+	rt, f := w.both(o.K, fmt.Sprintf("tx=%d %s", o.Tx, strings.ReplaceAll(sdl, "\n", " ")), func(n *hx.Node, _ bool) string {
+		return inTx(n, o.Tx, func(s client.Store, ctx context.Context) string {
+			cols, err := s.AddSchema(ctx, sdl)
+			if err != nil {
+				return errText(err)
+			}
+			return hx.Canon(hx.Normalize(cols))
+		})
 	})
 	if f != nil {
 		return f
 	}
-	if !isErr(rt) {
+	w.noteTx(o, rt)
+	if o.Fail != 0 && !isErr(rt) {
+		hx.Harnessf("an SDL built to fail on its last type was accepted: %s", sdl)
+	}
+	if took(o, rt) {
 		w.cols = append(w.cols, names...)
 		w.changed("schema")
 		w.allocated("collection")
@@ -613,7 +693,7 @@ func (w *world) opAddSchema(o Op) *hx.Failure {
 		if w.p2p != nil {
 			w.p2p.mirror(func(n *hx.Node) error { _, err := n.DB.AddSchema(n.Ctx, sdl); return err })
 		}
-	} else {
+	} else if isErr(rt) {
 		w.info.flag("op:addschema-rejected")
 	}
 	return nil
@@ -646,13 +726,16 @@ func (w *world) opPatch(o Op) *hx.Failure {
 	}
 	pf := patchPool[mod(o.F, len(patchPool))]
 	patch := fmt.Sprintf(`[{ "op": "add", "path": "/%s/Fields/-", "value": {"Name": %q, "Kind": %q} }]`, name, pf.n, pf.k)
-	rt, f := w.both(o.K, fmt.Sprintf("%s setDefault=%v", patch, o.B), func(n *hx.Node, _ bool) string {
-		return errText(n.DB.PatchSchema(n.Ctx, patch, immutable.None[model.Lens](), o.B))
+	rt, f := w.both(o.K, fmt.Sprintf("tx=%d %s setDefault=%v", o.Tx, patch, o.B), func(n *hx.Node, _ bool) string {
+		return inTx(n, o.Tx, func(s client.Store, ctx context.Context) string {
+			return errText(s.PatchSchema(ctx, patch, immutable.None[model.Lens](), o.B))
+		})
 	})
 	if f != nil {
 		return f
 	}
-	if !isErr(rt) {
+	w.noteTx(o, rt)
+	if took(o, rt) {
 		before := len(w.versions[name])
 		w.noteVersions(name)
 		w.changed("schema-version")
@@ -681,13 +764,16 @@ func (w *world) opSetActive(o Op) *hx.Failure {
 	}
 	vs := w.versions[name]
 	id := vs[mod(o.V, len(vs))]
-	rt, f := w.both(o.K, fmt.Sprintf("%s version #%d %s", name, mod(o.V, len(vs)), id), func(n *hx.Node, _ bool) string {
-		return errText(n.DB.SetActiveSchemaVersion(n.Ctx, id))
+	rt, f := w.both(o.K, fmt.Sprintf("tx=%d %s version #%d %s", o.Tx, name, mod(o.V, len(vs)), id), func(n *hx.Node, _ bool) string {
+		return inTx(n, o.Tx, func(s client.Store, ctx context.Context) string {
+			return errText(s.SetActiveSchemaVersion(ctx, id))
+		})
 	})
 	if f != nil {
 		return f
 	}
-	if !isErr(rt) {
+	w.noteTx(o, rt)
+	if took(o, rt) {
 		w.changed("schema-version")
 		w.info.flag("op:setactive-ok")
 		if len(vs) > 1 {
@@ -740,21 +826,24 @@ func (w *world) opCreateIndex(o Op) *hx.Failure {
 			req.Fields = append(req.Fields, client.IndexedFieldDescription{Name: f2.Name})
 		}
 	}
-	rt, f := w.both(o.K, fmt.Sprintf("%s %s", name, hx.Canon(hx.Normalize(req))), func(n *hx.Node, _ bool) string {
-		col, err := n.DB.GetCollectionByName(n.Ctx, name)
-		if err != nil {
-			return "get collection: " + errText(err)
-		}
-		d, err := col.CreateIndex(n.Ctx, req)
-		if err != nil {
-			return errText(err)
-		}
-		return hx.Canon(hx.Normalize(d))
+	rt, f := w.both(o.K, fmt.Sprintf("tx=%d %s %s", o.Tx, name, hx.Canon(hx.Normalize(req))), func(n *hx.Node, _ bool) string {
+		return inTx(n, o.Tx, func(s client.Store, ctx context.Context) string {
+			col, err := s.GetCollectionByName(ctx, name)
+			if err != nil {
+				return "get collection: " + errText(err)
+			}
+			d, err := col.CreateIndex(ctx, req)
+			if err != nil {
+				return errText(err)
+			}
+			return hx.Canon(hx.Normalize(d))
+		})
 	})
 	if f != nil {
 		return f
 	}
-	if !isErr(rt) {
+	w.noteTx(o, rt)
+	if took(o, rt) {
 		w.changed("index")
 		w.allocated("index")
 		w.info.flag("op:createindex-ok")
@@ -788,17 +877,20 @@ func (w *world) opDropIndex(o Op) *hx.Failure {
 	}
 	sort.Slice(ixs, func(i, j int) bool { return ixs[i].ID < ixs[j].ID })
 	target := ixs[mod(o.X, len(ixs))].Name
-	rt, f := w.both(o.K, name+" "+target, func(n *hx.Node, _ bool) string {
-		col, err := n.DB.GetCollectionByName(n.Ctx, name)
-		if err != nil {
-			return "get collection: " + errText(err)
-		}
-		return errText(col.DropIndex(n.Ctx, target))
+	rt, f := w.both(o.K, fmt.Sprintf("tx=%d %s %s", o.Tx, name, target), func(n *hx.Node, _ bool) string {
+		return inTx(n, o.Tx, func(s client.Store, ctx context.Context) string {
+			col, err := s.GetCollectionByName(ctx, name)
+			if err != nil {
+				return "get collection: " + errText(err)
+			}
+			return errText(col.DropIndex(ctx, target))
+		})
 	})
 	if f != nil {
 		return f
 	}
-	if !isErr(rt) {
+	w.noteTx(o, rt)
+	if took(o, rt) {
 		w.changed("index")
 		w.info.flag("op:dropindex-ok")
 	}
@@ -939,18 +1031,20 @@ func (w *world) opCreate(o Op) *hx.Failure {
 	q := fmt.Sprintf("mutation { create_%s(input: {%s}) { _docID } }", name, strings.Join(parts, ", "))
 	who := w.actor(o)
 	var ids []string
-	rt, f := w.both(o.K, whoName(who)+" "+q, func(n *hx.Node, isR bool) string {
-		r := hx.ExecOn(withID(n.Ctx, who), n.DB, q)
+	rt, f := w.both(o.K, fmt.Sprintf("tx=%d %s %s", o.Tx, whoName(who), q), func(n *hx.Node, isR bool) string {
 		var mine []string
-		for _, row := range r.Rows("create_" + name) {
-			if id, ok := row["_docID"].(string); ok {
-				mine = append(mine, id)
+		out := inTx(n, o.Tx, func(s client.Store, ctx context.Context) string {
+			r := hx.ExecOn(withID(ctx, who), s, q)
+			for _, row := range r.Rows("create_" + name) {
+				if id, ok := row["_docID"].(string); ok {
+					mine = append(mine, id)
+				}
 			}
-		}
+			return renderResult(r)
+		})
 		if !isR {
 			ids = mine
 		}
-		out := renderResult(r)
 		if o.K == opCreateP2PDoc && len(mine) > 0 {
 			if w.c.Avoid && rec.IsKnown(sigTopicRace) {
 				time.Sleep(25 * time.Millisecond)
@@ -962,7 +1056,11 @@ func (w *world) opCreate(o Op) *hx.Failure {
 	if f != nil {
 		return f
 	}
-	if !isErr(rt) {
+	w.noteTx(o, rt)
+	if o.Tx == 2 {
+		return nil
+	}
+	if took(o, rt) {
 		w.docs[name] = append(w.docs[name], ids...)
 		for _, id := range ids {
 			w.owner[id] = who
@@ -1012,13 +1110,16 @@ func (w *world) opUpdate(o Op) *hx.Failure {
 	id := w.docs[name][mod(o.D, len(w.docs[name]))]
 	q := fmt.Sprintf("mutation { update_%s(docID: %q, input: {%s: %s}) { _docID } }", name, id, fld.Name, lit)
 	who := w.actor(o)
-	rt, f := w.both(o.K, whoName(who)+" "+q, func(n *hx.Node, _ bool) string {
-		return renderResult(hx.ExecOn(withID(n.Ctx, who), n.DB, q))
+	rt, f := w.both(o.K, fmt.Sprintf("tx=%d %s %s", o.Tx, whoName(who), q), func(n *hx.Node, _ bool) string {
+		return inTx(n, o.Tx, func(s client.Store, ctx context.Context) string {
+			return renderResult(hx.ExecOn(withID(ctx, who), s, q))
+		})
 	})
 	if f != nil {
 		return f
 	}
-	if !isErr(rt) {
+	w.noteTx(o, rt)
+	if took(o, rt) {
 		w.changed("docs")
 		w.info.flag("op:update-ok")
 		if w.p2p != nil {
@@ -1036,13 +1137,16 @@ func (w *world) opDelete(o Op) *hx.Failure {
 	id := w.docs[name][mod(o.D, len(w.docs[name]))]
 	q := fmt.Sprintf("mutation { delete_%s(docID: %q) { _docID } }", name, id)
 	who := w.actor(o)
-	rt, f := w.both(o.K, whoName(who)+" "+q, func(n *hx.Node, _ bool) string {
-		return renderResult(hx.ExecOn(withID(n.Ctx, who), n.DB, q))
+	rt, f := w.both(o.K, fmt.Sprintf("tx=%d %s %s", o.Tx, whoName(who), q), func(n *hx.Node, _ bool) string {
+		return inTx(n, o.Tx, func(s client.Store, ctx context.Context) string {
+			return renderResult(hx.ExecOn(withID(ctx, who), s, q))
+		})
 	})
 	if f != nil {
 		return f
 	}
-	if !isErr(rt) {
+	w.noteTx(o, rt)
+	if took(o, rt) {
 		w.changed("docs")
 		w.info.flag("op:delete-ok")
 		if w.p2p != nil {
